@@ -140,3 +140,36 @@ Proof.
   - pose proof (extended_strictly_increasing _ s Hs Hb i j vi ri vj rj Hlt Hi Hj). lia.
   - pose proof (extended_strictly_increasing _ s Hs Hb j i vj rj vi ri Hgt Hj Hi). lia.
 Qed.
+
+(* ---- batches: a frame of n packets is n NextSequenceNumber steps ---- *)
+Lemma seq_run_app : forall a b s,
+  seq_run s (a ++ b) =
+  let '(s1, r1) := seq_run s a in let '(s2, r2) := seq_run s1 b in (s2, r1 ++ r2).
+Proof.
+  induction a as [|o a IH]; intros b s; cbn [app seq_run].
+  - destruct (seq_run s b) as [s2 r2]. reflexivity.
+  - destruct (seq_step s o) as [s1 r]. rewrite IH.
+    destruct (seq_run s1 a) as [s2 r1]. destruct (seq_run s2 b) as [s3 r2]. reflexivity.
+Qed.
+
+Lemma seq_take_run : forall n s, seq_take n s = seq_run s (repeat SNext n).
+Proof.
+  induction n as [|n IH]; intros s; cbn [seq_take repeat seq_run seq_step]; [reflexivity|].
+  destruct (seq_next s) as [s1 v]. rewrite IH. reflexivity.
+Qed.
+
+Theorem batches_are_steps : forall l s,
+  fst (seq_brun s l) = fst (seq_run s (flatten_bops l)) /\
+  concat (snd (seq_brun s l)) = snd (seq_run s (flatten_bops l)).
+Proof.
+  induction l as [|b l IH]; intros s; [split; reflexivity|].
+  destruct b as [o|n]; cbn [seq_brun flatten_bops flat_map].
+  - change ([o] ++ flat_map _ l) with (o :: flatten_bops l). cbn [seq_run].
+    destruct (seq_step s o) as [s1 r]. specialize (IH s1).
+    destruct (seq_brun s1 l) as [s2 rs]. destruct (seq_run s1 (flatten_bops l)) as [s3 rs']. cbn in *.
+    destruct IH as [-> <-]. split; reflexivity.
+  - fold (flatten_bops l). rewrite seq_run_app, <- seq_take_run.
+    destruct (seq_take n s) as [s1 vs]. specialize (IH s1).
+    destruct (seq_brun s1 l) as [s2 rs]. destruct (seq_run s1 (flatten_bops l)) as [s3 rs']. cbn in *.
+    destruct IH as [-> <-]. split; reflexivity.
+Qed.
